@@ -2256,3 +2256,69 @@ theorem subclasses_count (classes : List (Nat × List (Option Nat))) (b c : Nat)
 example : subclasses [(0, []), (1, [some 0]), (2, [some 1, some 0]), (3, [none, some 0])] 0 = [1, 2, 3] := by decide
 
 end PostProcess
+
+/-! ## zope.interface: "implemented by" is the inverse of "implements" -/
+namespace PostProcess
+
+theorem mem_foldl_addNew (l : List Nat) : ∀ (acc : List Nat) (y : Nat),
+    y ∈ l.foldl addNew acc ↔ y ∈ acc ∨ y ∈ l := by
+  induction l with
+  | nil => intro acc y; simp
+  | cons a t ih =>
+    intro acc y
+    simp only [List.foldl_cons, ih, List.mem_cons]
+    unfold addNew
+    by_cases h : a ∈ acc
+    · simp only [h, if_true]
+      constructor
+      · rintro (h1 | h1)
+        · exact .inl h1
+        · exact .inr (.inr h1)
+      · rintro (h1 | h1 | h1)
+        · exact .inl h1
+        · exact .inl (h1 ▸ h)
+        · exact .inr h1
+    · simp only [h, if_false, List.mem_append, List.mem_singleton]
+      constructor
+      · rintro ((h1 | h1) | h1)
+        · exact .inl h1
+        · exact .inr (.inl h1)
+        · exact .inr (.inr h1)
+      · rintro (h1 | h1 | h1)
+        · exact .inl (.inl h1)
+        · exact .inl (.inr h1)
+        · exact .inr h1
+
+theorem nodup_foldl_addNew (l : List Nat) : ∀ (acc : List Nat), acc.Nodup → (l.foldl addNew acc).Nodup := by
+  induction l with
+  | nil => intro acc h; simpa
+  | cons a t ih =>
+    intro acc h
+    simp only [List.foldl_cons]
+    apply ih
+    unfold addNew
+    by_cases ha : a ∈ acc
+    · simp [ha, h]
+    · simp only [ha, if_false]
+      rw [List.nodup_append]
+      exact ⟨h, by simp, by intro x hx y hy; simp at hy; subst hy; intro e; exact ha (e ▸ hx)⟩
+
+/-- **implementedBy_inverse** (C02): after post-processing, `x` is listed among the direct implementers
+of interface `i` exactly when one of the names `x` declares leads to the interface `i` — and it is
+listed once -/
+theorem implementedBy_inverse (decls : List (Nat × Option Nat)) (i x : Nat) :
+    (x ∈ implementedBy decls i ↔ (x, some i) ∈ decls) ∧ (implementedBy decls i).Nodup := by
+  unfold implementedBy
+  refine ⟨?_, nodup_foldl_addNew _ [] List.nodup_nil⟩
+  rw [mem_foldl_addNew]
+  simp only [List.not_mem_nil, false_or, List.mem_map, List.mem_filter]
+  constructor
+  · rintro ⟨⟨a, b⟩, ⟨hm, hb⟩, rfl⟩
+    have : b = some i := by simpa using hb
+    exact this ▸ hm
+  · intro h
+    exact ⟨(x, some i), ⟨h, by simp⟩, rfl⟩
+
+example : implementedBy [(5, some 1), (6, none), (5, some 1), (7, some 1), (5, some 2)] 1 = [5, 7] := by decide
+
+end PostProcess
